@@ -5,7 +5,7 @@ Definition A0 := TA 0%N.
 (* schedule(h1, w2); start(); the emitter puts event 7; it is dispatched to h1 *)
 Definition tr_deliver : list label :=
   [LCall 0%N (CSchedule 1%N 2%N); LStep A0; LStep A0; LStep A0;
-   LCall 0%N CStart; LOrd A0 [0%nat]; LStep A0; LStep A0; LStep A0; LStep A0; LStep A0;
+   LCall 0%N CStart; LStep A0; LOrd A0 [0%nat]; LStep A0; LStep A0; LStep A0; LStep A0; LStep A0; LStep A0;
    LECheck 0%nat; LEPut 0%nat 7%N; LStep TD; LStep TD; LStep TD; LTurn 1%N []; LStep TD; LStep TD].
 (* ... event 8 is dispatched and h1's callback calls stop() twice *)
 Definition tr_stop_in_callback : list label :=
